@@ -8,8 +8,8 @@ import numpy as np
 import common as C
 import eom_common as EC
 
-LEAN_MODULE = "WallGoVerif.Props.C04"
-LEMMA_MODULES = ["WallGoVerif.Lemmas.EOM", "WallGoVerif.Model.EOM"]
+LEAN_MODULES = ["WallGoVerif.Props.C04", "WallGoVerif.Props.C04P"]
+LEMMA_MODULES = ["WallGoVerif.Lemmas.EOM", "WallGoVerif.Model.EOM", "WallGoVerif.Lemmas.ProfilePoint", "WallGoVerif.Model.ProfilePoint"]
 GEN_MODULES = ["Helpers", "Hydro"]
 VALIDATE_ONLY = {"hydroBoundaries", "gammaSq"}
 VALIDATION_POINTS = (100, 1000)
@@ -17,7 +17,10 @@ RULE = ("obligations = Lean theorems of Props.C04 about Model.EOM (plasmaVelocit
         "temperatureProfileEqLHS = T33 - s2; a returned point reproduces both conserved components incl. the out-of-equilibrium part; "
         "(T+,-v+) and (T-,-v-) solve the equations with the hydrodynamic boundary constants; deltaToTmunu = boosted plasma-frame tensor; "
         "bracket direction and success flag logic) + Float correspondence of Model.EOM with the real EOM methods + recomputation of "
-        "T30/T33 from every returned profile point on real runs; distinct = (model, vw branch, wall shape, grid point class)")
+        "T30/T33 from every returned profile point on real runs + Props.C04P (Model.ProfilePoint: which root findPlasmaProfilePoint brackets -- "
+        "detonation below, deflagration/hybrid above the minimum of the left-hand side, always with a sign change) with exact correspondence "
+        "of that model against the REAL findPlasmaProfilePoint on scripted left-hand sides and solver stubs; "
+        "distinct = (model, vw branch, wall shape, grid point class) or (branch, shape of the scripted left-hand side, outcome)")
 ASSUMPTIONS = ["minimize_scalar(Bounded)/brentq are oracles; which root the heuristic bracket reaches is potential dependent (monitored)",
                "out-of-equilibrium moments are exercised through the model/correspondence (harness-chosen Deltas), real runs are LTE"]
 KEY_NOROOT = "C04:success-flag-no-root-branch"
@@ -114,6 +117,27 @@ def corr(rep: C.Report, tier: str):
             bad.append((ln.split()[0], got[:4], [float(x) for x in ex[:4]]))
     rep.obligation("correspondence Model.EOM(Float) = real EOM.wallProfile/plasmaVelocity/temperatureProfileEqLHS/_updateGrid/action kinetic/deltaToTmunu",
                    "correspondence", not bad, f"{len(lines)} calls; {bad[:3]}")
+    # branch logic of findPlasmaProfilePoint: the REAL method on scripted left-hand sides (parabolas) with minimize_scalar / root_scalar stubs
+    lines, expect, kinds = [], [], []
+    for _ in range(400 if tier == "quick" else 6000):
+        kind, p = EC.profile_point_params(r)
+        lines.append("point " + " ".join(_b(x) for x in p))
+        kinds.append(kind)
+        try:
+            expect.append(EC.scripted_profile_point(*p))
+        except Exception as ex:  # noqa: BLE001
+            expect.append(f"raised {type(ex).__name__}: {str(ex)[:80]}")
+    outs = C.lean_run("ProfilePointF", lines)
+    bad = []
+    for ln, k, e, o_ in zip(lines, kinds, expect, outs):
+        rep.case(key=("profile-point-logic", k, o_.split()[0]))
+        rep.count(f"profile point {k.split('/')[0]} {o_.split()[0]}")
+        if e != o_:
+            bad.append({"kind": k, "params(Tn,Tplus,Tminus,tmin,c0,c1,c2)": [C.b2f(int(t)) for t in ln.split()[1:]], "real": e, "model": o_})
+    rep.obligation("correspondence Model.ProfilePoint.profilePoint = real EOM.findPlasmaProfilePoint on scripted left-hand sides "
+                   "(early return, multiplier, marching loop, bracket handed to root_scalar)", "correspondence", not bad and len(outs) == len(lines),
+                   f"{len(lines)} cases; {str(bad[:1])[:400]}")
+    rep.extra["profile_point_disagreements"] = bad[:3]
 
 
 def search(rep: C.Report, tier: str, broken):
